@@ -158,6 +158,7 @@ MacConstNames == { <<"X">>, <<"m","X">>, <<"n","m","X">>, <<"n","Y">> }
 MacConstVals == {O1, O2}
 MacValsF == { L1, Pct(<<"X">>), Pct(<<"m","X">>), Pct(<<"Y">>), Pct(<<"W">>),
               R(<<"gin","macro">>, <<"W">>, "bare"), R(<<"gin","macro">>, <<"W">>, "call"),    \* the macro referenced explicitly
+              R(<<"gin","macro">>, <<"W","X">>, "call"),                                            \* a scope-like macro name
               <<"list", <<Pct(<<"W">>), Pct(<<"W">>)>>>> }
 MacValsM == { L1, L2, R(<<"m","g">>, <<>>, "call") }
 MacValsG == { L1 }
@@ -167,7 +168,8 @@ MacFilter(sc, c, v) ==
   \/ c.sel = <<"m","g">> /\ v \in MacValsG /\ sc = <<>>
 MacBindVals == MacValsF \cup MacValsM \cup MacValsG
 \* scenario model: a macro definition and the ways of referring to it
-MacRefVals == { L1, Pct(<<"W">>), R(<<"gin","macro">>, <<"W">>, "bare"), R(<<"gin","macro">>, <<"W">>, "call"), R(<<"gin","macro">>, <<"X">>, "call") }
+MacRefVals == { L1, Pct(<<"W">>), R(<<"gin","macro">>, <<"W">>, "bare"), R(<<"gin","macro">>, <<"W">>, "call"), R(<<"gin","macro">>, <<"X">>, "call"),
+                R(<<"gin","macro">>, <<"W","X">>, "call") }        \* the scope-like macro name W/X: bound only if W/X itself is
 MacRefFilter(sc, c, v) ==
   \/ c.sel = <<"m","f">> /\ v \in MacRefVals /\ sc = <<>>
   \/ c.sel = <<"gin","macro">> /\ v = L1 /\ sc \in {<<"W">>, <<"X">>}
